@@ -234,10 +234,10 @@ def r2_conversions(ctx):
     return s2v
 
 
-def r3_append_only(ctx):
-    ctx.rule('C19.R3', 'P3/P8: Vec<pavex_bp_schema::Component> is only pushed to / indexed in the runtime crate; RoutingModifiers::prefix/domain '
-             'return a value that keeps every field of self (no field is dropped or reset); RoutingModifiers::nest moves path_prefix and domain '
-             '(and the nested schema) into the NestedBlueprint it pushes.')
+def component_list_only_pushed(ctx, rid):
+    """one registration call = one component pushed: the component list of the runtime blueprint is only pushed to / indexed — never extended with
+    the components of another blueprint (a nested blueprint stays ONE NestedBlueprint component, which is what gives it its own scope and
+    its own copy of the middleware / observer chains), never reordered or truncated"""
     allowed = {'push', 'index', 'index_mut', 'new', 'len', 'iter', 'last_mut', 'last', 'is_empty', 'with_capacity', 'deref', 'deref_mut', 'as_slice', 'as_mut_slice'}
     n = 0
     for b in ctx.fb.bodies('pavex'):
@@ -248,10 +248,17 @@ def r3_append_only(ctx):
                 n += 1
                 m = (callee(t) or '?').split('::')[-1]
                 if m not in allowed:
-                    ctx.ob('C19.R3', 'components-mutation|%s|%s' % (b.nroot.split('::')[-1], m), False, b.loc(bb, t),
-                           'Vec<Component>::%s in %s: registrations must only be appended' % (m, b.nroot))
-    ctx.floor('C19.R3', 'accesses to the component list in pavex::blueprint', n, 8)
-    ctx.ob('C19.R3', 'components-append-only', True, '', '%d accesses, all push/index' % n, nontrivial=False)
+                    ctx.ob(rid, 'components-mutation|%s|%s' % (b.nroot.split('::')[-1], m), False, b.loc(bb, t),
+                           'Vec<Component>::%s in %s: registrations must only be appended, one component per call' % (m, b.nroot))
+    ctx.floor(rid, 'accesses to the component list in pavex::blueprint', n, 8)
+    ctx.ob(rid, 'components-append-only', True, '', '%d accesses, all push/index' % n, nontrivial=False)
+
+
+def r3_append_only(ctx):
+    ctx.rule('C19.R3', 'P3/P8: Vec<pavex_bp_schema::Component> is only pushed to / indexed in the runtime crate; RoutingModifiers::prefix/domain '
+             'return a value that keeps every field of self (no field is dropped or reset); RoutingModifiers::nest moves path_prefix and domain '
+             '(and the nested schema) into the NestedBlueprint it pushes.')
+    component_list_only_pushed(ctx, 'C19.R3')
     RM = 'pavex::blueprint::nesting::RoutingModifiers'
     a = ctx.fb.adt('pavex', RM)
     fields = [f['n'] for f in a['variants'][0]['fields']] if a else []
@@ -687,7 +694,70 @@ def r12_every_attribute_is_offered_to_the_parser(ctx):
                'the parser is fed from the attribute list parameter: %s, through %s%s' % (from_param, cs, '' if not bad else ' — truncating / positional adaptor(s): %s' % bad))
 
 
+# output fields of AnnotationProperties that are legitimately computed from several parsed fields
+COMPUTED_PROPERTIES = {('Route', 'method'): 'the method guard is computed from `method`, `allow(any_method)` and `allow(non_standard_methods)` (C07.R10 decides that computation)'}
+
+
+def r13_reader_hands_on_what_it_parsed(ctx, rid='C19.R13', lead=''):
+    from ..govern import governing_fields
+    ctx.rule(rid, lead + 'P5/P12 field-by-field conversion on the reader side: `pavexc_attr_parser` parses each `diagnostic::pavex::*` attribute into a '
+             '`*Properties` struct and converts it (`From<..Properties> for AnnotationProperties`) into what the compiler consumes. Every field of '
+             'the variant that is built comes from the like-named field of the parsed struct, and WHETHER it is handed on does not depend on another '
+             'field of that struct: a "normalisation" such as "a transient constructor has no cloning policy" makes '
+             '`#[transient(clone_if_necessary)] fn f() -> NotClone` pass the Clone check, which only looks at components whose policy it can see.')
+    AP = 'pavexc_attr_parser'
+    n = 0
+    for b in ctx.fb.bodies(AP):
+        if b.is_promoted or b.nid != b.nroot or 'impl core::convert::From for pavexc_attr_parser::AnnotationProperties' not in b.nid:
+            continue
+        defs = Defs(b)
+        src_ty = b.locals[1].split('::')[-1] if b.raw['argc'] >= 1 else '?'
+        for bb, j, st in b.all_assigns():
+            rv = st['rv']
+            if rv['k'] != 'agg' or rv.get('ak') != 'adt' or strip_generics(rv['adt']) != 'pavexc_attr_parser::AnnotationProperties':
+                continue
+            for fname, o in zip(rv.get('fields', []), rv['ops']):
+                n += 1
+                key = '%s|%s|%s' % (src_ty, rv['var'], fname)
+                if (rv['var'], fname) in COMPUTED_PROPERTIES:
+                    ctx.ob(rid, 'handed-on|' + key, True, b.loc(bb, st), 'reviewed: ' + COMPUTED_PROPERTIES[(rv['var'], fname)], nontrivial=False)
+                    continue
+                pl = op_place(o)
+                if pl is None:
+                    ctx.ob(rid, 'handed-on|' + key, False, b.loc(bb, st), '%s.%s is a constant: the parsed value is dropped' % (rv['var'], fname))
+                    continue
+                sl, locs = backward_slice(b, pl['l'], defs)
+                reads = field_reads_of_slice(sl) | field_reads_of_place(pl)
+                gov = set()
+                for l in locs | {pl['l']}:
+                    for dbb, _, _ in defs.full.get(l, []):
+                        gov |= governing_fields(b, dbb, defs)
+                gov |= governing_fields(b, bb, defs)
+                other = sorted(g for g in gov if g != fname and g in _input_fields(ctx, AP, b.locals[1]))
+                ok = fname in reads and not other
+                ctx.ob(rid, 'handed-on|' + key, ok, b.loc(bb, st),
+                       '%s.%s is filled from parsed field(s) %s%s' % (rv['var'], fname, sorted(reads & _input_fields(ctx, AP, b.locals[1])) or sorted(reads),
+                                                                  '' if not other else ' — and whether it is depends on the parsed field(s) %s' % other))
+    ctx.floor(rid, 'fields of AnnotationProperties built by the From conversions', n, 15)
+
+
+def _input_fields(ctx, crate, ty):
+    name = strip_generics(ty).lstrip('&')
+    try:
+        adt = ctx.fb.adt(crate, name)
+    except Exception:
+        adt = None
+    if not adt:
+        return set()
+    out = set()
+    for v in adt.get('variants', []):
+        for f in v.get('fields', []):
+            out.add((f.get('n') or f.get('name')) if isinstance(f, dict) else f)
+    return out
+
+
 def check(ctx):
+    r13_reader_hands_on_what_it_parsed(ctx)
     r12_every_attribute_is_offered_to_the_parser(ctx)
     r11_strings_recorded_as_given(ctx)
     r10_setters_overwrite(ctx)
